@@ -292,4 +292,29 @@ theorem sukf_blockdiag_needed :
   · have h01 := congrFun (congrFun h (0 : Fin (2 * 1))) (1 : Fin (2 * 1))
     simp [SNoise.toFull, SNoise.Rf, bdiag, Fin.divNat] at h01
 
+/-- The likelihood query after a step: none after every early return (no valid measurement, size not a
+    multiple of the block size, failed prediction, failed innovation) — as the standard correction — and the
+    likelihoods of this very step after a successful one (which `sukf_correct_eq_ukf` equates with the
+    standard ones). -/
+theorem sukf_likelihood_after_step (inv : InvFn ℝ) (bs : Nat) (R : SNoise ℝ msz bs) (inp : SukfIn ℝ n msz s k)
+    (b : GM ℝ n k) :
+    ((inp.validMeas = false ∨ msz % bs ≠ 0 ∨ inp.validPred = false ∨ inp.validInnov = false) →
+        sukfStepLikelihood inv bs R inp b = none) ∧
+    (∀ (hdiv : msz % bs = 0), inp.validMeas = true → inp.validPred = true → inp.validInnov = true →
+        sukfStepLikelihood inv bs R inp b = some (sukfLikelihoods inv bs hdiv R inp b)) := by
+  constructor
+  · intro h
+    unfold sukfStepLikelihood
+    rcases h with h | h | h | h
+    · simp [h]
+    · simp [h]
+    · split <;> simp [h]
+    · split
+      · split
+        · rfl
+        · simp [h]
+      · rfl
+  · intro hdiv h1 h2 h3
+    simp [sukfStepLikelihood, h1, h2, h3, hdiv]
+
 end BFL
